@@ -8,7 +8,7 @@
     [vm_compute] as a named instance obligation. *)
 From Coq Require Import List NArith Bool.
 From SV Require Import Text.Str Text.Prog Text.ProgProofs Text.Escape Text.EscapeProofs Text.EscPipeline Text.EscPipelineProofs
-  Text.Tokenizer Text.TokenizerProofs Text.HsTable Text.HsTableProofs Text.GtTable Text.GtTableProofs.
+  Text.Tokenizer Text.TokenizerProofs Text.HsTable Text.HsTableProofs Text.GtTable Text.GtTableProofs Text.OptsAtCall.
 Import ListNotations.
 Open Scope N_scope.
 
@@ -52,6 +52,19 @@ Theorem c02_postprocessing_refuted :
        {| string_bracket := false; string_parens := true; allow_escapes := true; allow_star_comments := false;
           preserve_comments := false; colon_operator := false; plus_operator := false |}
        1 10 1 false (DQ :: run_pipeline pp_table pp_pipeline true [92; 110] ++ [DQ]) = [RTok STRING [] 1 false].
+Proof. vm_compute. repeat split; reflexivity. Qed.
+
+(** Nor is a substitution with a look-ahead ("in multiline mode only a lone CR needs escaping", the alternative CR(?!LF)): it is not
+    [single_sub], it leaves the CR of CR LF raw, and the tokenizer folds a raw CR LF inside a string to one LF: the string CR LF
+    comes back as LF (round 5, computed witness). *)
+Theorem c02_lookahead_refuted :
+  is_single_sub [(PAlways, PSubLA [10] [(13, 10)])] true = false
+  /\ run_pipeline la_table [(PAlways, PSubLA [10] [(13, 10)])] true [13; 10] = [13; 10]
+  /\ tokens_flat {| esc_table := la_table; excl_single := []; excl_multi := [10]; bare_disallowed := []; operators := [];
+                    casefold := fun c => [c] |}
+       {| string_bracket := false; string_parens := true; allow_escapes := true; allow_star_comments := false;
+          preserve_comments := false; colon_operator := false; plus_operator := false |}
+       1 10 1 false (DQ :: run_pipeline la_table [(PAlways, PSubLA [10] [(13, 10)])] true [13; 10] ++ [DQ]) = [RTok STRING [10] 2 false].
 Proof. vm_compute. repeat split; reflexivity. Qed.
 
 (** The same through the reader state of the real class ([_cur_chunk], [_char_index], chunk iterator), for the text
@@ -131,6 +144,37 @@ Proof.
   rewrite (gt_trees_trace_is_model_chunked T o G _ HG Hhs (S n) fuel 1 false (concat chunks) _ (R_of_str (concat chunks))).
   rewrite Hc, (pipeline_is_escape T p ml Hp s).
   split; exact (escape_tokenize_inverse T o He ml Hok Hop s n fuel 1 false Hf).
+Qed.
+
+(** Round 5 - the options are public, settable attributes that every call of [tok()] reads when it runs; a trace in which they
+    change between calls is a trace with one option vector per call ([tokens_flat_opts]; with the same vector at every call it
+    is [tokens_flat]: [OptsAtCall.tokens_flat_opts_const]).  C02 needs escapes to be enabled during ONE call only - the call that
+    reads the string: whatever the options were during earlier calls and whatever they become afterwards ... *)
+Theorem c02_inverse_options_read_at_call_time : forall T o os ml,
+  allow_escapes o = true -> tbl_ok T ml = true -> dq_not_operator T = true ->
+  forall s fuel line lcr, (length s + 2 <= fuel)%nat ->
+  tokens_flat_opts T (o :: os) fuel line lcr (DQ :: escape T ml s ++ [DQ])
+  = RTok STRING s (line + raw_lfs T ml s) false :: map (fun _ => RTok EOF [] (line + raw_lfs T ml s) false) os.
+Proof. exact escape_tokenize_inverse_opts. Qed.
+
+(** ... and, per call, for the three functions AS WRITTEN in the source: from any reader state (line, [_last_was_cr]) left by
+    earlier calls, the call made with escapes enabled reads  "escape_text(s)"  as STRING [s] and leaves the rest of the input
+    untouched (flat, and over the chunked reader state of the real class). *)
+Theorem c02_one_call_as_written : forall T p o G rows ml,
+  allow_escapes o = true -> single_sub p ml = Some (excl T ml) -> tbl_ok T ml = true -> dq_not_operator T = true ->
+  trees_ok G = true -> hs_rows_ok rows = true ->
+  forall s f line lcr rest, (length s + 2 <= f)%nat ->
+  run_flat (gt_interp T o (steps_of G) (hs_interp T o (tb_of rows)) f line lcr) (DQ :: run_pipeline (esc_table T) p ml s ++ DQ :: rest)
+  = (RTok STRING s (line + raw_lfs T ml s) false, rest)
+  /\ forall st, R (DQ :: run_pipeline (esc_table T) p ml s ++ DQ :: rest) st ->
+     fst (run_chk (gt_interp T o (steps_of G) (hs_interp T o (tb_of rows)) f line lcr) st) = RTok STRING s (line + raw_lfs T ml s) false.
+Proof.
+  intros T p o G rows ml He Hp Hok Hop HG Hr s f line lcr rest Hf.
+  pose proof (hs_rows_interp_is_model T o rows Hr) as Hhs.
+  pose proof (get_token_reads_quoted_escape T o ml He Hok Hop s f line lcr rest Hf) as H1.
+  rewrite (pipeline_is_escape T p ml Hp s). split.
+  - now rewrite (gt_trees_interp_is_model T o G _ HG Hhs).
+  - intros st HR. rewrite (gt_trees_interp_is_model_chunked T o G _ HG Hhs f line lcr _ st HR). now rewrite H1.
 Qed.
 
 (** The row condition is not decoration: a table whose LF rows ignore the flag is rejected, and its interpretation
